@@ -32,7 +32,7 @@ impl Engine for E {
                 p.timeout_s = if quick { 600 } else { 3600 };
                 p.isolated_timeout_s = 120;
                 p.san = vec![SanTier { name: "nodebug", shards: 16, cases: if quick { n / 2 } else { n * 6 }, timeout_s: if quick { 600 } else { 3600 }, budget_s: 0 }];
-                p.rule = "case = one registered type (round-robin over the registry): a value built with the library's constructors is round-tripped, then its encoding is decoded under truncation at sampled offsets, a 0..255 sweep of the first byte, length-field inflation (1/2/4/8-byte big-endian windows set to 2^k, 2^32-1, 2^64-1), 16-bit bitmap sweeps, and ~260 (30 for crypto-heavy types) random mutations (bit flips, byte sets, splices with a second value, block swaps/duplications, insert/delete, pure random bytes); evaluations = judged decodes + judged value round-trips; distinct_nontrivial = distinct (type, valid encoding) seeds for which at least one mutated input decoded successfully".into();
+                p.rule = "pre-flight per shard: one value per (type, variant) from fixed generator streams is probed with 8-byte length windows (abort-safe ladder); then case = one registered type (round-robin over the registry): a value built with the library's constructors is round-tripped, then its encoding is decoded under truncation at sampled offsets, a 0..255 sweep of the first byte, length-field inflation (1/2/4/8-byte big-endian windows set to 2^k, 2^32-1, 2^64-1), 16-bit bitmap sweeps, and ~260 (30 for crypto-heavy types) random mutations (bit flips, byte sets, splices with a second value, block swaps/duplications, insert/delete, pure random bytes); evaluations = judged decodes + judged value round-trips; distinct_nontrivial = distinct (type, valid encoding) seeds for which at least one mutated input decoded successfully".into();
                 p.assumptions = vec![
                     "counting global allocator (vmon_core::alloc) measures peak live bytes per decode on the decoding thread".into(),
                     "values without PartialEq are compared through Debug rendering and re-encoding".into(),
